@@ -285,6 +285,80 @@ fn maybe_rejected_soft_run(seed: u64, sc: &mut Scenario, one_in: usize) {
     }
 }
 
+/// Turns a single-solve scenario into a history on one solver: 1..2 further problems over the same world are put in
+/// front of the scenario's own problem (so that the problem the families below shape is solved on a warm solver), and on
+/// request some of the earlier solves are cancelled at a seeded poll.
+fn prepend_history(seed: u64, sc: &mut Scenario, params: &GenParams, cancel: bool) {
+    let mut hr = Rng::stream(seed, "history-prefix");
+    let k = hr.range(1, 2);
+    let mut b = crate::gen::problems_over(&mut hr, &sc.world, params, k);
+    // half of the time an earlier problem is the scenario's own problem plus further requirements (which the later
+    // solve then no longer has)
+    let main = sc.solves.last().map(|s| s.problem.clone()).unwrap_or_default();
+    for p in b.iter_mut() {
+        if hr.chance(1, 2) {
+            let mut q = main.clone();
+            for r in p.requirements.drain(..) {
+                if !q.requirements.contains(&r) {
+                    q.requirements.push(r);
+                }
+            }
+            q.constraints.extend(p.constraints.drain(..));
+            *p = q;
+        }
+    }
+    let mut solves: Vec<SolveSpec> = b.drain(..).map(|p| SolveSpec { problem: p, cancel: None }).collect();
+    solves.append(&mut sc.solves);
+    sc.solves = solves;
+    if cancel {
+        sc.spurious_p = 0;
+        let base_rec = execute(sc);
+        let mut polls: Vec<u64> = Vec::new();
+        let mut cur = 0u64;
+        for e in &base_rec.log {
+            match e {
+                Ev::SolveBegin(_) => cur = 0,
+                Ev::CancelPoll { .. } => cur += 1,
+                Ev::SolveEnd(_) => polls.push(cur),
+                _ => {}
+            }
+        }
+        let last = sc.solves.len() - 1;
+        for (i, s) in sc.solves.iter_mut().enumerate() {
+            if i < last && i < polls.len() && polls[i] > 0 && hr.chance(1, 2) {
+                s.cancel = Some(CancelPlan { at_poll: hr.below(polls[i] as usize) as u64, mode: CancelMode::Persistent });
+            }
+        }
+    }
+}
+
+/// On a fraction of the seeds the scenario's problem is solved on a warm solver (1..2 earlier solves), on a smaller
+/// fraction it is moved more than 32 decision levels below the root, with lazily discovered reasons (Unknown
+/// dependencies) that invalidate a deep partial solution.
+fn maybe_warm_or_deep(seed: u64, sc: &mut Scenario, params: &GenParams) {
+    let mut r = Rng::stream(seed, "warm-or-deep");
+    if r.chance(1, 6) && sc.world.n_solvables() <= 60 {
+        // on a warm solver (what an earlier solve learnt or cached must not be installed by a later one)
+        prepend_history(seed, sc, params, false);
+    } else if r.chance(1, 20) && sc.world.n_solvables() <= 60 {
+        // deep below the root: more than 32 decision levels before the conflicts start, and lazily discovered
+        // reasons (Unknown dependencies) that invalidate a deep partial solution
+        let len = r.range(33, 70);
+        if r.chance(2, 3) {
+            let all: Vec<u32> = sc.world.solvables.keys().copied().collect();
+            for _ in 0..r.range(1, 2) {
+                if !all.is_empty() {
+                    let x = *r.pick(&all);
+                    sc.world.solvables.get_mut(&x).unwrap().deps = crate::world::Deps::Unknown(0);
+                }
+            }
+        }
+        let mut p = sc.solves[0].problem.clone();
+        crate::gen::add_deep_prefix(&mut r, &mut sc.world, &mut p, len);
+        sc.solves[0].problem = p;
+    }
+}
+
 /// On a fraction of the seeds: the world is a cyclic conflict (see `gen::cyclic_conflict`).
 fn maybe_cyclic_conflict(seed: u64, sc: &mut Scenario, one_in: usize) -> bool {
     let mut r = Rng::stream(seed, "cyclic-conflict");
@@ -494,6 +568,7 @@ impl Property for C02 {
         let params = swarm(seed, base, tier);
         let mut sc = std_scenario(seed, &params, None);
         maybe_forest(seed, &mut sc, &params, 40, tier);
+        maybe_warm_or_deep(seed, &mut sc, &params);
         sc.capture_state = true;
         vec![sc]
     }
@@ -922,6 +997,19 @@ impl Property for C04 {
         sc.render = true;
         sc.cancel_during_render = r.chance(1, 4);
         sc.rewrap_before_render = r.chance(1, 10);
+        // a solve is a solve: on a warm solver, after a cancelled one, deep below the root, with a subscriber listening
+        let params = GenParams::conflict_rich();
+        if r.chance(1, 6) && sc.world.n_solvables() <= 60 {
+            let cancel = r.chance(1, 2);
+            prepend_history(seed, &mut sc, &params, cancel);
+        } else if r.chance(1, 30) && sc.world.n_solvables() <= 60 {
+            let len = r.range(33, 70);
+            let mut p = sc.solves[0].problem.clone();
+            crate::gen::add_deep_prefix(&mut r, &mut sc.world, &mut p, len);
+            sc.solves[0].problem = p;
+        }
+        sc.trace_subscriber = r.chance(1, 8);
+        sc.token_repr = r.below(5) as u8;
         vec![sc]
     }
     fn judge(&self, sc: &Scenario) -> Verdict {
@@ -968,6 +1056,7 @@ impl Property for C05 {
         let params = swarm(seed, base, tier);
         let mut sc = std_scenario(seed, &params, None);
         maybe_forest(seed, &mut sc, &params, 40, tier);
+        maybe_warm_or_deep(seed, &mut sc, &params);
         sc.capture_state = true;
         vec![sc]
     }
@@ -999,6 +1088,9 @@ impl Property for C05 {
                     // literal left behind by backtracking is exactly how an unneeded solvable gets installed)
                     if let Some(Some(d)) = rec.dumps.get(i) {
                         *v.probes.entry("internal_state_checked").or_insert(0) += 1;
+                        if d.trail.iter().map(|t| t.level).max().unwrap_or(0) > 32 {
+                            *v.probes.entry("solution_with_over_32_decision_levels").or_insert(0) += 1;
+                        }
                         if let Some(e) = crate::internal::trail_justified(d) {
                             v.violate("internal:unjustified-assignment", format!("solve #{i}: {e}"));
                         }
@@ -1237,6 +1329,13 @@ impl Property for C08 {
             base.p_excluded = 0;
             base.p_locked = 0;
             base.vs_weights = [1, 6, 5, 3];
+        }
+        if seed % 5 == 0 {
+            // packages with 21..60 candidates, some of them excluded (library sorts and partitions change
+            // algorithm with the length of the slice)
+            base.p_big_package = 6;
+            base.p_excluded = 1;
+            base.max_solvables = 140;
         }
         let mut sc = std_scenario(seed, &swarm(seed, base, tier), None);
         // root requirements must be single version sets
@@ -1829,6 +1928,9 @@ impl Property for C12 {
         };
         ks.push(p + 5);
         let mut out = Vec::new();
+        // the type of the cancellation value and whether a tracing subscriber listens vary per faulted run
+        let mut tr = Rng::stream(seed, "token-repr");
+        let subscriber_seed = tr.chance(1, 3);
         for k in ks {
             for mode in [CancelMode::Persistent, CancelMode::Transient] {
                 if k > p && mode == CancelMode::Transient {
@@ -1836,6 +1938,8 @@ impl Property for C12 {
                 }
                 let mut s2 = sc.clone();
                 s2.solves[0].cancel = Some(CancelPlan { at_poll: k, mode });
+                s2.token_repr = tr.below(5) as u8;
+                s2.trace_subscriber = subscriber_seed && tr.chance(1, 2);
                 out.push(s2);
             }
         }
